@@ -309,6 +309,74 @@ def validate_cache_trace(ck, sh, corrupt=None):
         ck.extra["cache_events_validated"] = len(ev) - 1
 
 
+def adversarial_mutation(sh, seed):
+    """Trees obtained from memoised values are edited in place (as the subtree sampler edits the tree it is given), then the
+    same memoised calls are repeated: a later hit must still equal recomputation, i.e. cached values must not share mutable
+    state with the trees handed out."""
+    from phyclone.tree import FSCRPDistribution, TreeJointDistribution
+    from phyclone.smc.kernels import SemiAdaptedKernel, FullyAdaptedKernel
+    from phyclone.smc.swarm import Particle
+    from phyclone.smc.utils import RootPermutationDistribution
+    from ..enumrng import EnumRNG, enumerate_paths
+    from .. import gridoracle
+
+    n = 4
+    data = gridoracle.data_from_tables(gridoracle.int_tables(n, 1, 5, seed + 2), outlier_prob=0.2)
+    perm = RootPermutationDistribution()
+    for Kcls in (SemiAdaptedKernel, FullyAdaptedKernel):
+        td = TreeJointDistribution(FSCRPDistribution(1.0))
+        rng = EnumRNG()
+        kern = Kcls(td, rng, outlier_proposal_prob=0.1, perm_dist=perm)
+        for pk in (absstate.canon({"f": [[0]], "o": [1]}), absstate.canon({"f": [[0], [2]], "o": [1]}), absstate.canon({"f": [], "o": [0, 1]})):
+            d = max(absstate.data_ids(pk)) + 1
+            for rnd in range(2):
+                ptree = absstate.build(pk, data)
+                ppart = Particle(0, None, ptree, td, perm)
+                sh.ctx = "in-place edits of trees handed out by %s proposals, round %d, parent %s" % (Kcls.__name__, rnd, absstate.key_str(pk))
+                pd = kern.get_proposal_distribution(data[d], ppart, ptree)
+                outs = [t for t, p, _ in enumerate_paths(lambda: pd.sample(), rng)]
+                for holder in outs:
+                    t = holder.tree
+                    # edit the handed-out tree through the public API, the way the subtree / data-point samplers do
+                    for dp in t.outliers:
+                        t.remove_data_point_from_outliers(dp)
+                    nodes = t.nodes
+                    if nodes:
+                        for dp in list(t.get_data(nodes[0]))[:1]:
+                            if t.get_data_len(nodes[0]) > 1:
+                                t.remove_data_point_from_node(dp, nodes[0])
+
+
+def library_driving(sh, seed, thorough):
+    """The samplers driven as a library (as the repository's tests do): whole-tree, subtree and data-point moves on the
+    returned tree objects, outlier modelling on, and NO cache clear between sweeps."""
+    import numpy as np
+    from phyclone.tree import FSCRPDistribution, TreeJointDistribution, Tree
+    from phyclone.smc.kernels import SemiAdaptedKernel, FullyAdaptedKernel
+    from phyclone.smc.utils import RootPermutationDistribution
+    from phyclone.mcmc.particle_gibbs import ParticleGibbsTreeSampler, ParticleGibbsSubtreeSampler
+    from phyclone.mcmc.gibbs_mh import DataPointSampler, PruneRegraphSampler
+
+    for ki, Kcls in enumerate((SemiAdaptedKernel, FullyAdaptedKernel)):
+        data = chainlib.make_data(5, 2, 7, seed + ki, 0.3)
+        rng = np.random.default_rng(seed + 31 * ki)
+        td = TreeJointDistribution(FSCRPDistribution(1.0))
+        kern = Kcls(td, rng, outlier_proposal_prob=0.1, perm_dist=RootPermutationDistribution())
+        pg = ParticleGibbsTreeSampler(kern, rng, num_particles=5, resample_threshold=0.5)
+        sub = ParticleGibbsSubtreeSampler(kern, rng, num_particles=5, resample_threshold=0.5)
+        dp = DataPointSampler(td, rng, outliers=True)
+        prg = PruneRegraphSampler(td, rng)
+        tree = Tree.get_single_node_tree(data)
+        for it in range(60 if thorough else 25):
+            sh.ctx = "library driving %s, sweep %d (no cache clear)" % (Kcls.__name__, it)
+            tree = pg.sample_tree(tree)
+            tree = sub.sample_tree(tree)
+            tree = dp.sample_tree(tree)
+            tree = prg.sample_tree(tree)
+            if it % 7 == 3:
+                td.prior.alpha = 0.5 + (it % 5) * 0.4
+
+
 def run(corrupt=None):
     ck = Check("C14")
     env.use_repo()
@@ -321,6 +389,11 @@ def run(corrupt=None):
         clear_proposal_dist_caches()
         adversarial_arrays(sh, ck.seed)
         adversarial_alpha(sh, ck.seed, thorough)
+        adversarial_mutation(sh, ck.seed)
+        try:
+            library_driving(sh, ck.seed, thorough)
+        except Exception as ex:
+            ck.violation("C14|library_driving|exception:%s" % type(ex).__name__, "samplers driven without cache clears raised %s: %s [%s]" % (type(ex).__name__, ex, sh.ctx), {"ctx": sh.ctx})
         k = 0
         for prop in chainlib.PROPOSALS:
             for outl in (0, 0.3):
